@@ -2,8 +2,11 @@
 (model: coq/model/Render.v, spec: coq/spec/RenderS.v, proofs: coq/proofs/RenderP.v)."""
 import html
 import json
+import os
+import pickle
 import random
 import re
+import sys
 
 import fw
 import hobs
@@ -603,7 +606,20 @@ class C20(fw.Prop):
             "HUGRs of every operation, containers holding only Input/Output or nothing, unfinished CFGs/loops.  "
             "non-trivial = the HUGR has a nested container (cluster inside a cluster) and at least one "
             "non-value link (order/const/function/control-flow), or it has a node with more than 16 ports in one "
-            "direction, more than 16 children, or nesting deeper than 16, or it has no link at all but a node with ports")
+            "direction, more than 16 children, or nesting deeper than 16, or it has no link at all but a node with ports, "
+            "or its history customises a renderer made without a configuration.  "
+            "a fifth stream (12 quick / 100 thorough, plus 4 corpus entries) renders a HUGR (extension-operation or progs "
+            "program) several times around a HISTORY: renderers made without a configuration whose public config is "
+            "customised (qualify_op_name, palette), configuration objects changed after a renderer got them, config "
+            "assigned as a whole, explicit configurations used, on the HUGR itself / another HUGR / nothing drawn; the "
+            "judged renderings go through render_dot(), render_dot(config=None), DotRenderer().render, "
+            "DotRenderer(None), DotRenderer(RenderConfig()), an explicit configuration, a configuration object re-used "
+            "with changed attributes, a renderer made at the start of the history and left alone; every two renderings of a case under equal options must be the same drawing, "
+            "colours and names included (determined_b).  "
+            "40% of all cases get metadata put on after building (h[node].metadata[key] = value): the root's \"name\" "
+            "(the graph identifier render.py reads; identifiers of every spelling DOT quotes, now and then not a string), "
+            "\"name\" and look-alike keys (label, id, title, color) on the root and on inner nodes, string and non-string "
+            "values; the before/after comparison of the HUGR covers the metadata dict of every node")
     trusted = ["harness/props/c20.py: tokenising parser of the DOT text the graphviz package emits and of the HTML-like "
                "node labels (insensitive to whitespace, quoting style, attribute and statement order, styling attributes "
                "and where they are set - node/edge/graph default statements are applied with DOT's scoping -, inline "
@@ -654,6 +670,32 @@ class C20(fw.Prop):
             cases.append({"deg": seed, "reload": rel and deg_reloadable(gen_deg_program(random.Random(seed))),
                           "resolve": False, "shared": sh,
                           "cfgs": [0] + r4.sample(range(1, 6), 1 if tier == "quick" else 2)})
+        # seeded round 5: renderings around HISTORIES of creating / customising / using other renderers and
+        # configuration objects (state leaking between renderings: a shared default configuration, a remembered last
+        # configuration, a cache keyed by a configuration object); a fifth generator, so that the four streams above
+        # stay what they were
+        r5 = random.Random(r4.randrange(1 << 30))
+        for i in range(12 if tier == "quick" else 100):
+            seed = r5.randrange(1 << 30)
+            c = {"ext": seed} if r5.random() < 0.7 else {"seed": seed, "root": None, "mutate": 0}
+            if "seed" in c:
+                # each case holds 3-8 drawings of its HUGR: keep the big builder programs out (literal size)
+                try:
+                    if len(list(progs.run(progs.gen_program(random.Random(seed), None)).hugr)) > 60:
+                        c = {"ext": seed}
+                except Exception:
+                    c = {"ext": seed}
+            c.update({"reload": r5.random() < 0.15, "resolve": False, "shared": False,
+                      "cfgs": [0] + r5.sample(range(1, 6), r5.randint(0, 1)),
+                      "hist": gen_history(r5, 2 if tier == "quick" else 3)})
+            cases.append(c)
+        # seeded round 6: metadata on the ROOT and on inner nodes under the keys render.py reads ("name" of the root =
+        # graph identifier) and look-alikes, put on after building (h[node].metadata[key] = value); a sixth generator,
+        # so that the five streams above stay what they were (the same programs, some now decorated)
+        r6 = random.Random(r5.randrange(1 << 30))
+        for c in cases:
+            if r6.random() < 0.4:
+                c["md"] = gen_md(r6)
         return cases
 
     def corpus(self, ctx):
@@ -695,6 +737,39 @@ class C20(fw.Prop):
             {"degprog": {"root": "single", "op": "Module", "tys": ""}, "reload": False, "cfgs": [0, 1]},        # Hugr(): one node
             {"degprog": {"root": "dfg", "tys": "", "keep": [], "items": []}, "reload": True, "cfgs": [0]},      # Dfg(): no port, no link
             {"degprog": {"root": "cfg", "tys": "BU", "blocks": 0}, "reload": False, "cfgs": [0, 2]},            # a CFG nobody finished
+            # seeded round 5 (C20-i): what a rendering shows is determined by the HUGR and the options of THAT rendering,
+            # not by renderers / configurations created, customised or used before.  Every history has two phases with
+            # opposite settings, so that the drawings after the first and after the second differ under a leak whatever
+            # state the process is in
+            {"prog": "extops_instantiate", "reload": False, "cfgs": [0], "hist": [              # the demo of C20-i
+                {"k": "dflt", "q": True, "pal": "nb", "draw": "h", "first": False}, {"k": "draw", "path": "dot"},
+                {"k": "draw", "path": "rend"},
+                {"k": "dflt", "q": False, "pal": "zx", "draw": None, "first": False}, {"k": "draw", "path": "dot"}]},
+            {"prog": "order_reload", "reload": False, "cfgs": [0], "hist": [                    # the palette alone (colours)
+                {"k": "dflt", "q": None, "pal": "zx", "draw": None, "first": True}, {"k": "draw", "path": "rend"},
+                {"k": "dflt", "q": None, "pal": "nb", "draw": "warm", "first": False}, {"k": "draw", "path": "dotnone"}]},
+            {"prog": "extops_per_instance_class", "reload": False, "cfgs": [0], "hist": [       # qualification alone, nothing drawn
+                {"k": "draw", "path": "rend"},
+                {"k": "dflt", "q": True, "pal": None, "draw": None, "first": False}, {"k": "draw", "path": "rendnone"},
+                {"k": "dflt", "q": False, "pal": None, "draw": None, "first": False}, {"k": "draw", "path": "fresh"},
+                {"k": "dflt", "q": True, "pal": None, "draw": None, "first": False}, {"k": "draw", "path": "dot"}]},
+            {"prog": "extops_instantiate", "reload": True, "resolve": True, "cfgs": [0, 4], "hist": [
+                # explicit configurations given / assigned / re-used with changed attributes before default renderings
+                {"k": "hold", "ci": None}, {"k": "hold", "ci": 1},
+                {"k": "explicit", "ci": 4, "draw": "h"}, {"k": "draw", "path": "dot"}, {"k": "draw", "path": "held", "i": 0},
+                {"k": "assign", "ci": 3, "draw": "h"}, {"k": "draw", "path": "rend"}, {"k": "draw", "path": "held", "i": 1},
+                {"k": "cfgobj", "ci": 0, "q": True, "pal": "nb", "draw": "h"}, {"k": "draw", "path": "fresh"},
+                {"k": "draw", "path": "recfg", "ci0": 1, "ci": 2}, {"k": "draw", "path": "explicit", "ci": 4},
+                {"k": "explicit", "ci": 5, "draw": "warm"}, {"k": "draw", "path": "dotnone"}]},
+            # seeded round 6 (C20-j): rendering leaves the metadata of every node alone - also the root's "name" entry,
+            # which render.py reads as the graph identifier
+            {"prog": "order_reload", "reload": False, "cfgs": [0, 1],
+             "md": [["root", "name", "simple_id"], ["root", "author", "me"], [3, "name", "not"]]},      # the demo of C20-j
+            {"prog": "divmod_partial", "reload": True, "cfgs": [0], "md": [["root", "name", "a b"]]},
+            {"prog": "call_nested", "reload": False, "shared": True, "cfgs": [0, 3],
+             "md": [["root", "name", "digraph"], [1, "name", "f"], [2, "label", "x"]]},
+            # known finding on the unchanged tree: a root name that is not a string makes render_dot raise TypeError
+            {"prog": "order_reload", "reload": False, "cfgs": [0], "md": [["root", "name", 5]]},
         ]
 
     def build(self, case):
@@ -726,9 +801,50 @@ class C20(fw.Prop):
         return d
 
     def observe(self, case, ctx):
+        # A history case is observed in a forked child: under a leak (state shared between renderers) a history would
+        # change what every LATER case of this process sees, verdicts would depend on the order of the cases and a
+        # replay file would not reproduce in a fresh process.  The parent never runs a history, so every child starts
+        # from the state of a process that has only made plain renderings.
+        if case.get("hist") and hasattr(os, "fork"):
+            return self.observe_isolated(case, ctx)
+        return self.observe_here(case, ctx)
+
+    def observe_isolated(self, case, ctx):
+        sys.stdout.flush()
+        sys.stderr.flush()
+        r, w = os.pipe()
+        pid = os.fork()
+        if pid == 0:
+            try:
+                os.close(r)
+                try:
+                    data = pickle.dumps(("ok", self.observe_here(case, ctx)))
+                except BaseException as e:
+                    data = pickle.dumps(("raised", type(e).__name__ + ": " + str(e)[:300]))
+                with os.fdopen(w, "wb") as f:
+                    f.write(data)
+            finally:
+                os._exit(0)
+        os.close(w)
+        with os.fdopen(r, "rb") as f:
+            data = f.read()
+        os.waitpid(pid, 0)
+        if not data:
+            raise RuntimeError("isolated observation of a history case died")
+        tag, val = pickle.loads(data)
+        if tag != "ok":
+            raise RuntimeError("isolated observation of a history case raised " + val)
+        return val
+
+    def observe_here(self, case, ctx):
         from hugr.hugr import Hugr
         from hugr.hugr.render import PALETTE, RenderConfig, DotRenderer
         h, p = self.build(case)
+        for sel, key, val in case.get("md", []):
+            nodes = list(h)
+            nd = h[h.root if sel == "root" else nodes[sel % len(nodes)]]
+            # a new dict: the builders keep the dict they were given, which belongs to the program data of the case
+            nd.metadata = {**nd.metadata, key: val}
         if case.get("reload"):
             try:
                 h = Hugr.load_json(h.to_json())
@@ -741,6 +857,8 @@ class C20(fw.Prop):
                 return {"error": "resolve:" + type(e).__name__, "prog": p}
         before = json.dumps(hobs.dump(h), sort_keys=True, default=repr)
         view = hugr_view(h)
+        rn = h[h.root].metadata.get("name")
+        odd_name = bool(rn) and not isinstance(rn, str)       # known finding: render.py hands it to graphviz as it is
         rs = []
         for ci in case["cfgs"]:
             pal, q = CONFIGS[ci]
@@ -770,8 +888,146 @@ class C20(fw.Prop):
                 rs.append([cfg, {"error": "ParseError: " + str(e)[:200]}])
             except Exception as e:
                 rs.append([cfg, {"error": type(e).__name__}])
+        notes, held = [], []
+        for st in case.get("hist", []):
+            self.hist_step(st, h, view, rs, notes, held)
         after = json.dumps(hobs.dump(h), sort_keys=True, default=repr)
-        return {"view": view, "rs": rs, "unchanged": before == after, "prog": p}
+        return {"view": view, "rs": rs, "unchanged": before == after, "prog": p, "hist_notes": notes,
+                "root_name_not_a_string": odd_name}
+
+    def hist_step(self, st, h, view, rs, notes, held):
+        """one step of a history (seeded round 5).  `draw` steps are renderings of the HUGR under options that are
+        beyond doubt (no configuration given: whatever RenderConfig() is; or a configuration holding the stated
+        values at the time of the call) - they are judged, and compared with every other rendering of the case made
+        under equal options.  All other steps are activity AROUND them: renderers made without a configuration whose
+        public `config` is customised, configuration objects changed after a renderer got them, `config` assigned,
+        explicit configurations used - their drawings are not judged (when a renderer reads its options is not part
+        of the property), only that they do not raise."""
+        from hugr.hugr.render import PALETTE, RenderConfig, DotRenderer
+        k = st["k"]
+
+        def declared(palette, q):
+            return {"pal": {f: getattr(palette, f) for f in PAL_FIELDS}, "qualify": bool(q)}
+
+        def dflt():
+            d = RenderConfig()
+            return d.palette, bool(d.qualify_op_name)
+
+        def setopts(c, q, pal):
+            try:
+                if q is not None:
+                    c.qualify_op_name = q
+                if pal is not None:
+                    c.palette = PALETTE[pal]
+                return True
+            except Exception as e:                      # options that cannot be changed: nothing to observe
+                notes.append("options not settable: " + type(e).__name__)
+                return False
+
+        def around(rend, which):
+            # a drawing made by a customised renderer: must not raise, is not judged otherwise
+            if which is None:
+                return
+            try:
+                rend.render(h if which == "h" else warmup_hugr())
+            except Exception as e:
+                rs.append([declared(*dflt()), {"error": type(e).__name__}])
+        if k == "hold":
+            # a renderer made now (without a configuration, or with one nobody touches afterwards), used later by a
+            # `draw` step with path "held": its options are those of its creation
+            try:
+                if st.get("ci") is None:
+                    palette, q = dflt()
+                    held.append((DotRenderer(), declared(palette, q)))
+                else:
+                    pal, q = CONFIGS[st["ci"]]
+                    held.append((DotRenderer(RenderConfig(palette=PALETTE[pal], qualify_op_name=q)), declared(PALETTE[pal], q)))
+            except Exception as e:
+                rs.append([declared(*dflt()), {"error": type(e).__name__}])
+        elif k == "draw" and st["path"] == "held":
+            if not held:
+                return
+            rend, cfg = held[st.get("i", 0) % len(held)]
+            try:
+                rs.append([cfg, self.parse(rend.render(h).source, view, cfg)])
+            except ParseError as e:
+                rs.append([cfg, {"error": "ParseError: " + str(e)[:200]}])
+            except Exception as e:
+                rs.append([cfg, {"error": type(e).__name__}])
+        elif k == "draw":
+            path = st["path"]
+            if path in ("explicit", "recfg"):
+                pal, q = CONFIGS[st["ci"]]
+                palette = PALETTE[pal]
+            else:
+                palette, q = dflt()
+            cfg = declared(palette, q)
+            try:
+                if path == "dot":
+                    src = h.render_dot().source
+                elif path == "dotnone":
+                    src = h.render_dot(config=None).source
+                elif path == "rend":
+                    src = DotRenderer().render(h).source
+                elif path == "rendnone":
+                    src = DotRenderer(None).render(h).source
+                elif path == "fresh":
+                    src = DotRenderer(RenderConfig()).render(h).source
+                elif path == "explicit":
+                    src = h.render_dot(RenderConfig(palette=palette, qualify_op_name=q)).source
+                elif path == "recfg":
+                    # one configuration object, used, changed, used again by a NEW renderer
+                    p0, q0 = CONFIGS[st.get("ci0", 0)]
+                    c = RenderConfig(palette=PALETTE[p0], qualify_op_name=q0)
+                    h.render_dot(c)
+                    if not setopts(c, q, pal):
+                        return
+                    src = h.render_dot(c).source
+                else:
+                    raise ValueError(path)
+                rs.append([cfg, self.parse(src, view, cfg)])
+            except ParseError as e:
+                rs.append([cfg, {"error": "ParseError: " + str(e)[:200]}])
+            except Exception as e:
+                rs.append([cfg, {"error": type(e).__name__}])
+        elif k == "dflt":
+            # a renderer made without a configuration, customised through its public attribute
+            try:
+                rend = DotRenderer()
+            except Exception as e:
+                rs.append([declared(*dflt()), {"error": type(e).__name__}])
+                return
+            if st.get("first"):
+                around(rend, st.get("draw") or "warm")
+            if setopts(rend.config, st.get("q"), st.get("pal")):
+                around(rend, st.get("draw"))
+        elif k == "cfgobj":
+            # a configuration object changed after a renderer got it
+            pal, q = CONFIGS[st["ci"]]
+            c = RenderConfig(palette=PALETTE[pal], qualify_op_name=q)
+            rend = DotRenderer(c)
+            around(rend, st.get("draw"))
+            if setopts(c, st.get("q"), st.get("pal")):
+                around(rend, st.get("draw"))
+        elif k == "assign":
+            # the public attribute assigned as a whole
+            pal, q = CONFIGS[st["ci"]]
+            rend = DotRenderer()
+            try:
+                rend.config = RenderConfig(palette=PALETTE[pal], qualify_op_name=q)
+            except Exception as e:
+                notes.append("config not assignable: " + type(e).__name__)
+                return
+            around(rend, st.get("draw"))
+        elif k == "explicit":
+            pal, q = CONFIGS[st["ci"]]
+            try:
+                (h if st.get("draw") == "h" else warmup_hugr()).render_dot(
+                    RenderConfig(palette=PALETTE[pal], qualify_op_name=q))
+            except Exception as e:
+                rs.append([declared(PALETTE[pal], q), {"error": type(e).__name__}])
+        else:
+            raise ValueError(k)
 
     # -- literals
     def literal(self, case, obs, ctx):
@@ -845,6 +1101,8 @@ class C20(fw.Prop):
         if "error" in obs:
             return True
         v = obs["view"]
+        if any(st["k"] == "dflt" and (st.get("q") is not None or st.get("pal") is not None) for st in case.get("hist", [])):
+            return True          # a renderer made without a configuration is customised between judged renderings
 
         def depth(t):
             return 1 + max([depth(c) for c in t["ch"]], default=0)
@@ -868,11 +1126,34 @@ class C20(fw.Prop):
         if "error" in obs:
             return "render:" + obs["error"]
         errs = sorted({d["error"].split(":")[0] for _, d in obs["rs"] if "error" in d})
+        if errs == ["TypeError"] and obs.get("root_name_not_a_string"):
+            return "render:raises:TypeError:root-name-not-a-string"
         if errs:
             return "render:raises:" + ",".join(errs) + (":reloaded" if case.get("reload") else "")
         if not obs["unchanged"]:
             return "render:modifies-hugr"
+        if case.get("hist") and self.history_dependent(obs):
+            return "render:depends-on-history"
         return "render:drawing-differs" + (":reloaded" if case.get("reload") else "")
+
+    @staticmethod
+    def history_dependent(obs):
+        # two renderings of the case under equal options that are not the same drawing (label of the failure only;
+        # the verdict is the monitor's `determined_b`)
+        def key(d):
+            return json.dumps([d["bg"], d["top"], sorted(json.dumps(e, sort_keys=True) for e in d["edges"])], sort_keys=True)
+        seen = {}
+        for c, d in obs["rs"]:
+            if "error" in d:
+                continue
+            kc = json.dumps(c, sort_keys=True)
+            try:
+                kd = key(d)
+            except Exception:
+                continue
+            if seen.setdefault(kc, kd) != kd:
+                return True
+        return False
 
     def shrink(self, case):
         if "ext" in case or "extprog" in case:
@@ -890,6 +1171,11 @@ class C20(fw.Prop):
             rest = {k: v for k, v in case.items() if k != "deg"}
             for q in shrink_deg_program(p):
                 yield {**rest, "degprog": q, "reload": bool(rest.get("reload")) and deg_reloadable(q)}
+        if case.get("hist"):
+            yield from ({**case, "hist": hh} for hh in shrink_history(case["hist"]))
+        if case.get("md"):
+            for i in range(len(case["md"])):
+                yield {**case, "md": case["md"][:i] + case["md"][i + 1:]}
         if len(case.get("cfgs", [])) > 1:
             for c in case["cfgs"]:
                 yield {**case, "cfgs": [c]}
@@ -921,7 +1207,21 @@ class C20(fw.Prop):
              "degenerate_programs": sum(1 for c in cases if "deg" in c or "degprog" in c),
              "hugrs_without_any_link": 0, "hugrs_without_any_link_but_with_ports": 0, "hugrs_of_a_single_node": 0,
              "hugrs_with_a_linkless_node_that_has_ports": 0, "hugrs_with_an_unlinked_port_below_a_linked_one": 0,
-             "hugrs_with_a_container_operation_without_children": 0}
+             "hugrs_with_a_container_operation_without_children": 0,
+             "hugrs_with_added_metadata": sum(1 for c in cases if c.get("md")),
+             "hugrs_with_a_root_name": sum(1 for c in cases if any(m[0] == "root" and m[1] == "name" for m in c.get("md", []))),
+             "hugrs_with_a_truthy_root_name_that_is_not_a_string": sum(1 for o in observations if o.get("root_name_not_a_string")),
+             "history_cases": sum(1 for c in cases if c.get("hist")),
+             "history_steps_by_kind": {}, "history_judged_renderings_by_path": {},
+             "history_cases_with_an_extension_operation": 0, "history_notes": {}}
+        for c, o in zip(cases, observations):
+            for st in c.get("hist", []):
+                if st["k"] == "draw":
+                    d["history_judged_renderings_by_path"][st["path"]] = d["history_judged_renderings_by_path"].get(st["path"], 0) + 1
+                else:
+                    d["history_steps_by_kind"][st["k"]] = d["history_steps_by_kind"].get(st["k"], 0) + 1
+            for nt in o.get("hist_notes", []):
+                d["history_notes"][nt] = d["history_notes"].get(nt, 0) + 1
 
         dd = d["diagnostic only, no verdict (model drift): renderings that differ from the model of today's render.py in "
                "what the property does not promise"] = {"renderings": 0}
@@ -935,6 +1235,7 @@ class C20(fw.Prop):
             if "view" not in o:
                 continue
             d["hugrs_with_2plus_extension_op_definitions"] += len({i["nq"] for i in infos(o["view"]["tree"]) if i["nq"] != i["nu"]}) >= 2
+            d["history_cases_with_an_extension_operation"] += bool(c.get("hist")) and any(i["nq"] != i["nu"] for i in infos(o["view"]["tree"]))
             sz = sizes_of(o["view"])
             dg = degeneracy_of(o["view"])
             for k in dg:
@@ -1698,6 +1999,87 @@ def shrink_deg_program(p):
         yield {**p, "tys": "B" * len(t)}
     if isinstance(p.get("keep"), list) and p["keep"]:
         yield {**p, "keep": p["keep"][:-1]}
+
+
+# ----------------------------------------------------------------------------- histories (seeded round 5)
+# What a rendering shows is determined by the HUGR and the options of that rendering.  A history is a list of steps:
+# activity around the judged renderings (see C20.hist_step) and `draw` steps - renderings under options beyond doubt.
+
+DEFAULT_PATHS = ["dot", "dot", "rend", "rend", "dotnone", "rendnone", "fresh"]
+
+
+def gen_history(rng, phases):
+    def around():
+        x = rng.random()
+        tgt = rng.choice(["h", "h", "warm", None])
+        if x < 0.5:
+            q, pal = rng.choice([(True, None), (None, "nb"), (None, "zx"), (True, "nb"), (True, "zx"), (False, "nb"),
+                                 (False, None), (None, "default"), (False, "default")])
+            return {"k": "dflt", "q": q, "pal": pal, "draw": tgt, "first": rng.random() < 0.3}
+        if x < 0.65:
+            return {"k": "cfgobj", "ci": rng.randrange(6), "q": rng.choice([True, False, None]),
+                    "pal": rng.choice(["nb", "zx", "default", None]), "draw": tgt or "h"}
+        if x < 0.8:
+            return {"k": "assign", "ci": rng.randrange(1, 6), "draw": tgt}
+        return {"k": "explicit", "ci": rng.randrange(1, 6), "draw": tgt or "warm"}
+
+    def judged():
+        if rng.random() < 0.8:
+            return {"k": "draw", "path": rng.choice(DEFAULT_PATHS)}
+        if rng.random() < 0.5:
+            return {"k": "draw", "path": "explicit", "ci": rng.randrange(1, 6)}
+        return {"k": "draw", "path": "recfg", "ci0": rng.randrange(6), "ci": rng.randrange(1, 6)}
+    steps = []
+    nheld = rng.choice([0, 0, 1, 1, 2])
+    for _ in range(nheld):
+        steps.append({"k": "hold", "ci": rng.choice([None, None, 1, 2, 3, 4, 5])})
+    if rng.random() < 0.5:
+        steps.append({"k": "draw", "path": rng.choice(["rend", "dotnone", "fresh"])})
+    for ph in range(rng.randint(2, phases)):
+        for _ in range(rng.randint(1, 2)):
+            steps.append(around())
+        if nheld and rng.random() < 0.6:
+            steps.append({"k": "draw", "path": "held", "i": rng.randrange(nheld)})
+        else:
+            steps.append(judged())
+        if rng.random() < 0.25:
+            steps.append(judged())
+    return steps
+
+
+MD_KEYS = ["name", "name", "name", "label", "id", "title", "author", "color"]
+MD_STRINGS = ["simple_id", "main", "a b", "digraph", "node", "x<y", "7", "\u00fc", "a-b", "", "strict", "cluster0", "in.0"]
+MD_OTHER = [5, 0, None, True, ["l", 1], {"a": 1}, 2.5]
+
+
+def gen_md(rng):
+    """metadata put on after building: [selector, key, value] with selector "root" or a position in list(hugr).
+    The root's "name" is the graph identifier: strings of every spelling DOT quotes; values that are not strings only
+    now and then (known finding: TypeError on the unchanged tree when truthy)"""
+    md = []
+    if rng.random() < 0.75:
+        md.append(["root", "name", rng.choice(MD_OTHER) if rng.random() < 0.04 else rng.choice(MD_STRINGS)])
+    for _ in range(rng.randint(0 if md else 1, 3)):
+        sel = "root" if rng.random() < 0.4 else rng.randrange(40)
+        key = rng.choice(MD_KEYS)
+        if sel == "root" and key == "name":
+            key = "label"
+        md.append([sel, key, rng.choice(MD_STRINGS) if rng.random() < 0.7 else rng.choice(MD_OTHER)])
+    return md
+
+
+def shrink_history(hist):
+    for i in range(len(hist)):
+        yield hist[:i] + hist[i + 1:]
+    for i, st in enumerate(hist):
+        if st["k"] in ("dflt", "cfgobj"):
+            for f in ("draw", "q", "pal"):
+                if st.get(f) is not None and not (f == "draw" and st["k"] == "cfgobj"):
+                    yield hist[:i] + [{**st, f: None}] + hist[i + 1:]
+            if st.get("first"):
+                yield hist[:i] + [{**st, "first": False}] + hist[i + 1:]
+        elif st["k"] == "assign" and st.get("draw") is not None:
+            yield hist[:i] + [{**st, "draw": None}] + hist[i + 1:]
 
 
 def mutate(h, rng, k):
